@@ -625,8 +625,11 @@ class Exec:
                     if v is None:
                         raise Inconclusive('read of uninitialised field')
                 elif isinstance(v, Enum):
-                    # single-variant access without downcast (structs printed as enums) - not expected
-                    raise Inconclusive('field of enum without downcast')
+                    # coroutine state: captured variables are fields of the state object itself
+                    up = v.payloads.get('#upvars')
+                    if up is None or p[1] >= len(up):
+                        raise Inconclusive('field of enum without downcast')
+                    v = up[p[1]]
                 elif isinstance(v, Buf) and v.kind == 'string' and p[1] == 0:
                     v = Buf('vec', v.arr, v.off, v.len)
                 else:
@@ -1213,6 +1216,9 @@ class Exec:
                 p.note = str(e) + ' in ' + (p.frames[-1].fn.name + ':' + p.frames[-1].bb if p.frames else '?')
             if p.status == 'dead':
                 continue
+            if p.status == 'running':
+                p.status = 'dead'
+                continue
             done.append(p)
             self.stats.paths += 1
             if self.stats.paths > self.max_paths:
@@ -1239,6 +1245,8 @@ class Exec:
         return self.unroll
 
     def run_path(self, p, work):
+        if p.status != 'running':
+            return
         while True:
             fr = p.frames[-1]
             fr.visits[fr.bb] = fr.visits.get(fr.bb, 0) + 1
@@ -1426,7 +1434,7 @@ class Exec:
             r = self.apply_outcome(q, c, o, dest, ret_bb, site)
             if q is p:
                 result = r
-            elif r != 'END':
+            elif r != 'END' or q.status not in ('dead', 'running'):
                 work.append(q)
         return result
 
@@ -1438,6 +1446,12 @@ class Exec:
             if not self.oblig(q, oc, 'precondition', msg, site):
                 q.status = 'dead'
                 return 'END'
+        if o.get('stop'):
+            if 'apply' in o:
+                o['apply'](q)
+            q.status = 'stopped'
+            q.note = o.get('stop')
+            return 'END'
         if 'panic' in o:
             self.stats.obligations += 1
             v = Violation('panic', o['panic'], site, None, fr.fn.name)
